@@ -35,6 +35,21 @@ if kind == 'c11':
                     s = ('' if a is None else str(a)) + ':' + ('' if b is None else str(b)) + ('' if c is None else ':' + str(c))
                     cases.append((f"$[{s}]", arr))
         for i in [M, -M]: cases.append((f"$[{i}]", arr))
+    # index segments of singular queries inside comparisons: every index from far below -len to far above len
+    for ln in range(0, 5):
+        arr = list(range(ln))
+        for i in range(-2 * ln - 3, 2 * ln + 4):
+            cases.append((f"$[?@[{i}]=={max(ln - 1, 0)}]", [arr, list(reversed(arr)), [7] * ln]))
+            cases.append((f"$.b[?@==$.a[{i}]]", {"a": arr, "b": [0, 1, 2, 3, None]}))
+            cases.append((f"$[?@[{i}]]", [arr, [arr]]))
+            cases.append((f"$[?@[0][{i}]!=1]", [[arr]]))
+    # values that a narrower integer type would wrap or truncate (8, 16, 31, 32, 52, 53, 63 bits), in every position
+    TR = sorted({s * (2 ** k + d) for k in (8, 16, 31, 32, 33, 40, 48, 52) for d in (-1, 0, 1, 2) for s in (1, -1)})
+    for ln in (0, 1, 3, 6):
+        arr = list(range(ln))
+        for t in TR:
+            for q in (f"$[{t}]", f"$[::{t}]", f"$[{t}:]", f"$[:{t}]", f"$[{t}::-1]", f"$[:{t}:-1]", f"$[1::{t}]", f"$[?@[{t}]==0]"):
+                cases.append((q, arr if not q.startswith('$[?') else [arr]))
     for q, sc in [("$[1:2]", {"a": 1}), ("$[0]", {"0": 1}), ("$[::]", "abc"), ("$[0]", 5), ("$..[1::-1]", [[1, 2, 3], [4, [5, 6]]])]: cases.append((q, sc))
     if N and N < len(cases): cases = rnd.sample(cases, N)
     for q, d in cases: emit(q, d)
@@ -62,11 +77,21 @@ elif kind == 'c04':
     for a in LITS:
         for b in LITS:
             for op in OPS: cases.append((f"$[?{a}{op}{b}]", [0]))
+    # containers with many members / elements: equality is member-wise whatever the size
+    for n in (47, 48, 49, 50, 64, 65, 70, 130):
+        o = {'k%03d' % i: i for i in range(n)}; o1 = dict(o); o1['k%03d' % (n - 1)] = float(n - 1); o2 = dict(o); o2['k%03d' % (n // 2)] = -1; o3 = dict(o); del o3['k000']; o3['zzz'] = 0
+        a = list(range(n)); a1 = a[:-1] + [float(n - 1)]; a2 = a[:-1] + [-1]
+        for op in OPS:
+            cases.append((f"$.i[?@{op}$.w]", {"w": o, "i": [o, o1, o2, o3, {}]}))
+            cases.append((f"$.i[?@{op}$.w]", {"w": a, "i": [a, a1, a2, a[:-1], []]}))
+            cases.append((f"$.i[?@.x{op}@.y]", {"i": [{"x": o, "y": o1}, {"x": o, "y": o2}, {"x": [o], "y": [o1]}, {"x": a, "y": a1}, {"x": a, "y": a2}]}))
     if N and N < len(cases): cases = rnd.sample(cases, N)
     for q, d in cases: emit(q, d)
 elif kind == 'c05':
     ATOMS = ['@.a', '@.b', '@[0]', '@.*', '$.k', '@.a==1', '@.b!=2', '@.a<@.b', '1==1', '1==2', '@[?@.a]', '@..a', 'length(@.a)==0', 'count(@.*)>1', "in(@.a,$.k)",
-             '@[?@.a].b', '@[?@.a][0]', '@[?@.a]..b', '@[?@.b].a[?@>1]', '@.*[?@.a].b', '@[?@.a,?@.b].b', '@[1:][?@.a].b', '@..[?@.a].b', '@[?@[?@.a].b]', 'count(@[?@.a])==2', 'value(@[?@.b].a)==1']
+             '@[?@.a].b', '@[?@.a][0]', '@[?@.a]..b', '@[?@.b].a[?@>1]', '@.*[?@.a].b', '@[?@.a,?@.b].b', '@[1:][?@.a].b', '@..[?@.a].b', '@[?@[?@.a].b]', 'count(@[?@.a])==2', 'value(@[?@.b].a)==1',
+             # a `!` that belongs to a filter nested inside the tested query, not to the test itself
+             '@[?!@.a]', '@.a[?!@.b]', '@[?!@.a].b', '@[?!(@.a)]', '@[?!@.a&&@.b]', '@[?@.a||!@.b]', 'count(@[?!@.a])==1', '@.*[?!@.b]', '@..[?!@.a]', '@[?@[?!@.a]]', '$.k[?!@.a]', '@[?@.a!=1]']
     DOCS = [[{"a": 1}, {"a": 2, "b": 7}], [{"b": 1, "a": [0, 2]}, {"a": 1}, {"a": {"b": 3}, "b": 0}], {"x": {"a": 1}, "y": {"a": 2, "b": [5]}}, [[{"a": 1}], [{"a": 1, "b": 2}]], {"a": 1}, {"a": ""}, {"a": []}, {"a": {}}, {"a": None}, {"a": False}, {"a": 0}, {"b": 2}, {"a": 1, "b": 2}, {"a": 2, "b": 1}, [], [0], [[{"a": 1}]], [{"a": {"a": 1}}], {}, 5, "s", None]
     def formula(d):
         r = rnd.random()
@@ -82,8 +107,12 @@ elif kind == 'c05':
         q = ("$.items[?" + f + "]") if isinstance(doc, dict) else ("$[?" + f + "]")
         emit(q, doc)
 elif kind == 'c14':
-    VALS = [1, 1.0, 'a', 'b', None, True, False, 0, [1], [1.0], {"k": 1}, [], {}, '1', 'null', 'true', '[1]', '1.0', '{}', '', 'a,b']
-    ARRS = [[], [1], [1, 'a'], ['a', 'b'], [[1]], [None], [1.0], [{"k": 1}], [[], {}], 5, 'x', None, {}, [1, 1], ['a', 'a', 'b', 'a'], [1, 1, 1, 1], [[1], [1]], [None, None], ['b', 'a', 'b'], ['1'], ['null', 'true'], [None, True, 1], ['[1]', '{}'], [0.0, 0], ['1', 1]]
+    VALS = [1, 1.0, 'a', 'b', None, True, False, 0, [1], [1.0], {"k": 1}, [], {}, '1', 'null', 'true', '[1]', '1.0', '{}', '', 'a,b',
+            # integers beyond i64 / beyond the exact range of f64, and a digit string next to the digit
+            18446744073709551615, 18446744073709551614, 9223372036854775807, 9223372036854775808, 9007199254740993, 9007199254740992, -9223372036854775808, 7, '7', [7], [18446744073709551615]]
+    BIG = [str(i) for i in range(70)]
+    ARRS = [[18446744073709551614], [9223372036854775808, 9007199254740992], BIG, list(range(70)), BIG + [None], ['null', 'true', 'false'] + BIG, [[i] for i in range(70)], ['[%d]' % i for i in range(70)], list(range(100, 170)) + ['7'],
+            [], [1], [1, 'a'], ['a', 'b'], [[1]], [None], [1.0], [{"k": 1}], [[], {}], 5, 'x', None, {}, [1, 1], ['a', 'a', 'b', 'a'], [1, 1, 1, 1], [[1], [1]], [None, None], ['b', 'a', 'b'], ['1'], ['null', 'true'], [None, True, 1], ['[1]', '{}'], [0.0, 0], ['1', 1]]
     for _ in range(N):
         fn = rnd.choice(['in', 'nin', 'any_of', 'none_of', 'subset_of'])
         elems = [rnd.choice(VALS + ARRS) for _ in range(rnd.choice([1, 2, 3, 4]))]
@@ -106,11 +135,36 @@ elif kind == 'c10':
         else:
             fn = rnd.choice(['match', 'search']); neg = rnd.choice(['', '', '!'])
             p = rnd.choice(PATS)
-            if rnd.random() < 0.5 and "'" not in p and '\\' not in p: emit(f"$.s[?{neg}{fn}(@, '{p}')]", {"s": items})
+            two = rnd.choice(['match', 'search']); op = rnd.choice(['&&', '||']); neg2 = rnd.choice(['', '!'])
+            if rnd.random() < 0.3 and "'" not in p and '\\' not in p: emit(f"$.s[?{neg}{fn}(@, '{p}') {op} {neg2}{two}(@, '{p}')]", {"s": items})   # one pattern text under both functions
+            elif rnd.random() < 0.5 and "'" not in p and '\\' not in p: emit(f"$.s[?{neg}{fn}(@, '{p}')]", {"s": items})
             else: emit(f"$.s[?{neg}{fn}(@, $.p)]", {"s": items, "p": rnd.choice(PATS + [1, None])})
+if kind == 'c15':
+    # singular queries of every length, absolute and relative, that exist / half exist in the document; the engine may only walk them through the accessors
+    NAMES = ['cfg', 'limits', 'price', 'tiers', 'a', 'b_1', 'x9']
+    for _ in range(N):
+        k = rnd.choice([1, 2, 3, 4, 5, 5, 6, 6, 7, 8])
+        steps = [rnd.choice(NAMES) if rnd.random() < 0.7 else rnd.choice([0, 1, -1]) for _ in range(k)]
+        leafv = rnd.choice([1, 2, 'x', None, [1], {"a": 1}, 1.0])
+        def build(steps, v):
+            for st in reversed(steps):
+                if isinstance(st, str): v = {st: v, 'other': 0}
+                else: v = [v, 5] if st == 0 else ([5, v])
+            return v
+        tree = build(steps, leafv)
+        sq = ''.join(('.' + st if rnd.random() < 0.6 else "['" + st + "']") if isinstance(st, str) else '[%d]' % st for st in steps)
+        cut = rnd.randrange(len(steps) + 1)
+        miss = ''.join(('.' + st) if isinstance(st, str) else '[%d]' % st for st in steps[:cut]) + rnd.choice(['.nope', '[9]', ''])
+        items = [{"p": 1}, {"p": 2}, {"p": 'x'}, {"p": None}, {"p": [1]}, {"p": {"a": 1}}, {"q": 0}, {"p": tree}]
+        op = rnd.choice(['==', '!=', '<', '<=', '>', '>='])
+        form = rnd.choice(["$.items[?@.p{op}$.t{sq}]", "$.items[?$.t{sq}{op}@.p]", "$.items[?@.p{op}$.t{miss}]", "$.items[?@.p{sq}{op}$.t{sq}]", "$.items[?$.t{sq}]", "$.items[?length($.t{sq})>=0]", "$.items[?@.p{sq}]",
+                           "$.items[?count($.t{sq})==1]", "$.items[?value($.t{sq})==@.p]", "$.items[?in(@.p, $.t{sq})]", "$.t{sq}", "$.items[?@.p{op}$.t{sq} && $.t{miss}]"])
+        emit(form.format(op=op, sq=sq, miss=miss), {"t": tree, "items": items})
 if kind == 'c13':
     # abstract queries rendered into several spellings: output {"group": id, "q":..., "doc":..., "tdoc":...}
-    NAMES = ['a', 'b', 'ab', 'c1', '_x', 'é']
+    # names whose first or last character is white space for Unicode but a plain name character for RFC 9535, next to their trimmed forms
+    NAMES = ['a', 'b', 'ab', 'c1', '_x', 'é', 'a\u00a0', '\u2003b', 'ab\u3000', 'a\u2028', 'b\u0085', '\ufeffa', '\u1680ab']
+    def sqname(): return rnd.choice(NAMES[:3]) if rnd.random() < 0.7 else rnd.choice(NAMES)
     def ws(): return rnd.choice(['', '', ' ', '\t', '\n', '\r', '  '])
     def num_spell(v):  # v in small ints
         if v == 100: return rnd.choice(['100', '1e2', '100.0', '1E+2', '10e1', '1000e-1'])
@@ -121,12 +175,12 @@ if kind == 'c13':
         return rnd.choice(forms)
     def abstract_atom(d):
         r = rnd.random()
-        if r < 0.25: return ('cmp', ('sq', rnd.choice(['@', '$']), [rnd.choice(NAMES[:3]) for _ in range(rnd.choice([0, 1, 2]))]), rnd.choice(['==', '!=', '<', '<=', '>', '>=']), ('num', rnd.choice([0, 0, 1, 2, -1])))
+        if r < 0.25: return ('cmp', ('sq', rnd.choice(['@', '$']), [sqname() for _ in range(rnd.choice([0, 1, 2]))]), rnd.choice(['==', '!=', '<', '<=', '>', '>=']), ('num', rnd.choice([0, 0, 1, 2, -1])))
         if r < 0.31: return ('cmp', ('fnv', rnd.choice(['length(@)', 'count(@.*)', 'value(@[0])', 'length(@.a)', 'count(@..*)'])), rnd.choice(['==', '!=', '<', '<=', '>', '>=']), ('num', rnd.choice([0, 1, 2, 3])))
         if r < 0.35: return ('cmp', ('num', rnd.choice([0, 1, 2, 100])), rnd.choice(['==', '!=', '<', '>=']), ('num', rnd.choice([0, 1, 2, 100])))
         if r < 0.6: return ('test', rnd.random() < 0.3, abstract_query(d + 1, True))
         if r < 0.8 and d < 2: return ('paren', rnd.random() < 0.3, abstract_logical(d + 1))
-        return ('cmp', ('sq', '@', [rnd.choice(NAMES[:3])]), '==', ('str', rnd.choice(['a', 'b', 'x y'])))
+        return ('cmp', ('sq', '@', [sqname()]), '==', ('str', rnd.choice(['a', 'b', 'x y'])))
     def abstract_logical(d): return [[abstract_atom(d) for _ in range(rnd.choice([1, 1, 2]))] for _ in range(rnd.choice([1, 1, 2]))]
     def abstract_sel(d):
         r = rnd.random()
@@ -188,8 +242,21 @@ if kind == 'c13':
         if depth >= 3 or r < 0.3: return rnd.choice(SC)
         if r < 0.6: return [doc(depth + 1) for _ in range(rnd.choice([0, 1, 2, 3]))]
         return {k: doc(depth + 1) for k in rnd.sample(NAMES, rnd.choice([0, 1, 2, 3]))}
+    def names_in(x, acc):
+        if isinstance(x, (list, tuple)):
+            if len(x) == 3 and x[0] == 'sq': acc.update(x[2])
+            elif len(x) == 2 and x[0] == 'name': acc.add(x[1])
+            for y in x: names_in(y, acc)
+        return acc
     K = 6
     for g in range(max(1, N // K)):
         aq = abstract_query(0); d = doc()
+        if rnd.random() < 0.5:
+            # a document made for this query: the names it uses, next to their look-alikes (trimmed of Unicode white space), with different values
+            used = sorted(names_in(aq, set())) or ['a']
+            pool = sorted(set(used) | {n.strip() for n in used if n.strip()} | {'a', 'b'})
+            def obj(depth=0):
+                return {k: (rnd.choice([0, 1, 2, -1, 'a', 'b', None]) if depth >= 2 or rnd.random() < 0.6 else rnd.choice([obj(depth + 1), [obj(depth + 1)]])) for k in rnd.sample(pool, rnd.randint(1, min(4, len(pool))))}
+            d = [obj() for _ in range(rnd.choice([2, 3, 4]))] if rnd.random() < 0.7 else obj()
         for _ in range(K):
             print(json.dumps({"group": g, "q": r_query(aq), "doc": d, "tdoc": tag(d)}, ensure_ascii=False))
